@@ -489,6 +489,20 @@ def replay(art):
     c = art['case']
     st = runner.Stats()
     if c['part'] == 'A':
-        return [{'note': 'replay part A by re-running ./vcheck C04 (the case lists operands and flags)', 'case': c}]
+        so, si = alg.sig_of(space.from_json(c['outer'])), alg.sig_of(space.from_json(c['inner']))
+        fl, n, names = c['flags'], c['n'], c['names']
+        r1 = alg.outcome(S.forwards, so, si, n, *names, **fl)
+
+        def composed():
+            inner = si
+            if fl['partial']:
+                inner = si.replace(parameters=[p if p.kind in (p.VAR_POSITIONAL, p.VAR_KEYWORD) else p.replace(default=None)
+                                               for p in si.parameters.values()])
+            return S.embed(so, S.mask(inner, n, *names, hide_args=fl['hide_args'], hide_kwargs=fl['hide_kwargs']),
+                           use_varargs=fl['use_varargs'], use_varkwargs=fl['use_varkwargs'])
+        r2 = alg.outcome(composed)
+        same = r1[0] == r2[0] and (r1[0] != 'ok' or (alg.params_key(r1[1]) == alg.params_key(r2[1]) and alg.src_key(r1[1]) == alg.src_key(r2[1])))
+        return None if same else [{'forwards': alg.sig_str(r1[1]) if r1[0] == 'ok' else repr(r1[1]),
+                                   'embed_of_mask': alg.sig_str(r2[1]) if r2[0] == 'ok' else repr(r2[1])}]
     eval_decl(decl_from_json(c['decl']), st)
-    return [v['detail'] for v in st.viol] or None
+    return runner.fresh_details('C04', st) or None
